@@ -8,6 +8,7 @@
     [of_syn (to_syn p) = Ok p] on the operands the serializer writes).  A real number is carried by both models as
     decimal text; [fl_of_text] is the f32 that text denotes in the content model's convention (a text without '.'
     denotes the integral value, a leading '+' is dropped). *)
+From Coq Require Import String.
 From PdfV Require Import Base.Prelude Gen.Generated Content.Model.
 From PdfV Require Lex.Lexer Lex.StrLexer Syn.Prim Syn.Utf8 Syn.Parser.
 Open Scope N_scope.
@@ -199,6 +200,125 @@ Section Loop.
     | _ :: _ => parse_loop (S (length data)) st0 [] (Lexer.mkLx 0 data)
     end.
 End Loop.
+
+(* ------------------------------------------------------------------ *)
+(** * content.rs: inline_image, the typed reading of the dictionary (after the data has been located)
+
+    Every `?` of that part of the function in source order; the image keeps the dictionary as read (the harness puts
+    Width / Height / Filter / Intent back under their keys), so the model decides present / absent.  Outside the
+    model ([E_UNMODELLED], never generated): colour spaces other than names and Indexed, filters with parameters,
+    indirect references. *)
+Fixpoint dget (k : bytes) (d : list (bytes * prim)) : option prim :=
+  match d with [] => None | (k', v) :: t => if beqb k k' then Some v else dget k t end.
+
+(* content.rs: expand_abbr *)
+Fixpoint expand_abbr (p : prim) (alt : list (bytes * bytes)) : prim :=
+  match p with
+  | PName n => PName (expand_abbr_name n alt)
+  | PArr l => PArr (List.map (fun x => expand_abbr x alt) l)
+  | _ => p
+  end.
+
+(* Option::map(..).transpose()? *)
+Definition opt_check {A} (o : option prim) (f : prim -> res A) : res unit :=
+  match o with None => Ok tt | Some p => do _ <- f p; Ok tt end.
+
+Definition as_bool (p : prim) : res unit := match p with PBool _ => Ok tt | _ => Err E_UNEXPECTED end.
+(* Primitive::as_u32 *)
+Definition as_u32 (p : prim) : res unit :=
+  match p with PInt z => if (z <? 0)%Z then Err E_OTHER else Ok tt | _ => Err E_UNEXPECTED end.
+(* Primitive::as_u8 *)
+Definition as_u8 (p : prim) : res unit :=
+  match p with PInt z => if ((0 <=? z) && (z <? 256))%Z then Ok tt else Err E_OTHER | _ => Err E_UNEXPECTED end.
+
+(* color.rs: get_index *)
+Definition get_index (arr : list prim) (i : nat) : res prim :=
+  match nth_error arr i with Some p => Ok p | None => Err E_OTHER end.
+
+Definition name_Indexed : bytes := bs "Indexed".
+
+(* color.rs: ColorSpace::from_primitive_depth (names, Indexed) *)
+Fixpoint color_space (depth : nat) (p : prim) : res unit :=
+  match p with
+  | PName _ => Ok tt
+  | PArr arr =>
+      do t <- get_index arr 0;
+      match t with
+      | PName typ =>
+          match depth with
+          | O => Err E_OTHER                       (* bail!("ColorSpace base recursion") *)
+          | S d =>
+              if beqb typ name_Indexed then
+                do base <- get_index arr 1; do _ <- color_space d base;
+                do hv <- get_index arr 2; do _ <- as_u8 hv;
+                do lk <- get_index arr 3;
+                match lk with PStr _ => Ok tt | _ => Err E_UNEXPECTED end
+              else Err E_UNMODELLED
+          end
+      | _ => Err E_UNEXPECTED
+      end
+  | _ => Err E_UNEXPECTED                          (* into_array *)
+  end.
+
+(* Vec<f32>::from_primitive *)
+Definition decode_array (p : prim) : res unit :=
+  match p with
+  | PArr l => do _ <- map_res as_number l; Ok tt
+  | PNull => Ok tt
+  | _ => do _ <- as_number p; Ok tt
+  end.
+
+Definition filter_names : list bytes :=
+  List.map bs ["ASCIIHexDecode"; "ASCII85Decode"; "LZWDecode"; "FlateDecode"; "JPXDecode"; "DCTDecode"; "CCITTFaxDecode";
+               "JBIG2Decode"; "Crypt"; "RunLengthDecode"]%string.
+Definition filters_with_params : list bytes :=
+  List.map bs ["LZWDecode"; "FlateDecode"; "DCTDecode"; "CCITTFaxDecode"; "JBIG2Decode"]%string.
+
+(* enc.rs: StreamFilter::from_kind_and_params; the typed reading of a non-empty parameter dictionary is not modelled *)
+Definition filter_of (parms : list (bytes * prim)) (p : prim) : res unit :=
+  match p with
+  | PName kind =>
+      if existsb (beqb kind) filter_names then
+        if existsb (beqb kind) filters_with_params then
+          match parms with [] => Ok tt | _ => Err E_UNMODELLED end
+        else Ok tt
+      else Err E_OTHER
+  | _ => Err E_UNEXPECTED
+  end.
+
+Definition key (s : string) : bytes := bs s.
+
+Definition image_typed (dict : list (bytes * prim)) (data : bytes) : res op :=
+  do _ <- opt_check (dget (key "BitsPerComponent") dict) (fun p => as_integer p);
+  do _ <- opt_check (dget (key "ColorSpace") dict) (fun p => color_space 5 (expand_abbr p inline_cs_abbr));
+  do _ <- opt_check (dget (key "Decode") dict) decode_array;
+  do parms <- match dget (key "DecodeParms") dict with
+              | None => Ok []
+              | Some (PDict d) => Ok d
+              | Some _ => Err E_UNEXPECTED
+              end;
+  do _ <- match dget (key "Filter") dict with
+          | None => Ok tt
+          | Some f =>
+              match expand_abbr f inline_filter_abbr with
+              | PArr parts => do _ <- map_res (filter_of parms) parts; Ok tt
+              | PName k => filter_of parms (PName k)
+              | _ => Err E_OTHER                   (* bail!("invalid filter") *)
+              end
+          end;
+  do _ <- match dget (key "Height") dict with None => Err E_OTHER | Some p => as_u32 p end;
+  do _ <- opt_check (dget (key "ImageMask") dict) as_bool;
+  do _ <- opt_check (dget (key "Intent") dict)
+            (fun p => match p with
+                      | PName n => match assoc_b n ri_table with Some _ => Ok tt | None => Err E_OTHER end
+                      | _ => Err E_UNEXPECTED
+                      end);
+  do _ <- opt_check (dget (key "Interpolate") dict) as_bool;
+  do _ <- match dget (key "Width") dict with None => Err E_OTHER | Some p => as_u32 p end;
+  Ok (OInlineImage dict data).
+
+(* content.rs: parse_ops *)
+Definition parse_bytes : bytes -> res (list op) := parse_bytes_with image_typed.
 
 Definition parse_bytes_raw : bytes -> res (list op) :=
   parse_bytes_with (fun dict data => Ok (OInlineImage dict data)).
